@@ -69,6 +69,17 @@ async fn server(log: SharedLog, me: usize, inc: u32, v6: bool) -> turmoil::Resul
     let l = TcpListener::bind((any, 9000)).await?;
     let u = UdpSocket::bind((any, 9001)).await?;
     log.ev(format!("n{me}.{inc} server up at {}us", us(turmoil::elapsed())));
+    // multicast announcements: fan-out to every member host
+    if let Ok(m) = UdpSocket::bind((any, 9003)).await {
+        let mlog = log.clone();
+        tokio::task::spawn_local(async move {
+            for k in 0..6u8 {
+                tokio::time::sleep(Duration::from_millis(7)).await;
+                let r = if v6 { m.send_to(&[k, 0xAA], "[ff08::7]:9002").await } else { m.send_to(&[k, 0xAA], "239.1.1.7:9002").await };
+                mlog.ev(format!("n{me}.{inc} multicast #{k} -> {:?}", r.map_err(|e| e.kind())));
+            }
+        });
+    }
     let ulog = log.clone();
     tokio::task::spawn_local(async move {
         let mut buf = [0u8; 128];
@@ -115,6 +126,17 @@ async fn server(log: SharedLog, me: usize, inc: u32, v6: bool) -> turmoil::Resul
 async fn client(log: SharedLog, me: usize, inc: u32, srv: usize, rounds: u32, msg_len: u32, timeout_ms: u64, v6: bool) -> turmoil::Result {
     let to = Duration::from_millis(timeout_ms);
     let u = UdpSocket::bind((if v6 { "::" } else { "0.0.0.0" }, 0)).await?;
+    if let Ok(g) = UdpSocket::bind((if v6 { "::" } else { "0.0.0.0" }, 9002)).await {
+        let joined = if v6 { g.join_multicast_v6(&"ff08::7".parse().unwrap(), 0) } else { g.join_multicast_v4("239.1.1.7".parse().unwrap(), "0.0.0.0".parse().unwrap()) };
+        let glog = log.clone();
+        glog.ev(format!("n{me}.{inc} join group -> {:?}", joined.as_ref().map_err(|e| e.kind())));
+        tokio::task::spawn_local(async move {
+            let mut buf = [0u8; 8];
+            while let Ok((n, from)) = g.recv_from(&mut buf).await {
+                glog.ev(format!("n{me}.{inc} multicast recv {:?} from {from} at {}us", &buf[..n], us(turmoil::elapsed())));
+            }
+        });
+    }
     for r in 0..rounds {
         // TCP request / response under a timeout
         let res = tokio::time::timeout(to, async {
@@ -368,6 +390,10 @@ fn gen_scenario(rng: &mut Rng) -> Scenario {
     let mut cfg = SimCfg::gen(rng, &CfgProfile { latency_range: true, random_failures: true, small_capacities: true, max_tick_ms: 10, max_latency_ticks: 6 });
     cfg.tcp_capacity = cfg.tcp_capacity.max(8);
     cfg.udp_capacity = cfg.udp_capacity.max(2);
+    // legal but unusual seeds
+    if rng.chance(1, 12) {
+        cfg.rng_seed = *rng.pick(&[0u64, 1, u64::MAX, 1 << 63]);
+    }
     let nh = rng.usize(1, 5);
     let mut hosts = Vec::new();
     hosts.push(if nh == 1 { HostProg::FsWorker { files: rng.range(3, 7) as u32, ring_ops: rng.range(0, 5) as u32, rounds: rng.range(1, 3) as u32 } } else { HostProg::Server });
